@@ -58,16 +58,16 @@ type wConn struct {
 	ws        *websocket.Conn
 	raw       net.Conn
 
-	mu       sync.Mutex
-	cond     *sync.Cond // signalled whenever the inbox grows or the reader stops
-	inbox    []Rx
-	rh       *hws.RealtimeHandler
-	returned bool // websocket.Handle returned on the server side
-	entered  bool
-	readDone chan struct{}
-	resume   chan struct{}
-	stalled  bool // client stopped reading
-	closed   bool
+	mu         sync.Mutex
+	cond       *sync.Cond // signalled whenever the inbox grows or the reader stops
+	inbox      []Rx
+	rh         *hws.RealtimeHandler
+	returned   bool // websocket.Handle returned on the server side
+	entered    bool
+	readDone   chan struct{}
+	resume     chan struct{}
+	stalled    bool // client stopped reading
+	closed     bool
 	readerGone bool
 }
 
